@@ -1,5 +1,5 @@
 (* C16 — correspondence: the harness records what the real codecs did on generated documents / keys. *)
-From Coq Require Import List String ZArith NArith Bool.
+From Coq Require Import List String Ascii ZArith NArith Bool.
 Import ListNotations.
 From VF Require Export C16.Model.
 
@@ -19,11 +19,42 @@ Fixpoint assoc_s (l : list (Z * string)) (k : Z) : string :=
 Definition ozeq (a b : option Z) : bool :=
   match a, b with Some x, Some y => Z.eqb x y | None, None => true | _, _ => false end.
 
+(* disclosures of every SD-JWT string among the enclosed credentials in sorted order *)
+Fixpoint str_leb (a b : string) : bool :=
+  match a, b with
+  | EmptyString, _ => true
+  | String _ _, EmptyString => false
+  | String x a', String y b' =>
+      let nx := nat_of_ascii x in let ny := nat_of_ascii y in
+      if Nat.ltb nx ny then true else if Nat.ltb ny nx then false else str_leb a' b'
+  end.
+Fixpoint insert_str (x : string) (l : list string) : list string :=
+  match l with [] => [x] | y :: r => if str_leb x y then x :: l else y :: insert_str x r end.
+Definition sort_str (l : list string) : list string := fold_right insert_str [] l.
+Definition norm_cred_str (j : json) : json :=
+  match j with
+  | JStr s => match split_tilde s with
+              | jwt :: rest => JStr (join_tilde (jwt :: sort_str (filter (fun x => negb (String.eqb x EmptyString)) rest)))
+              | [] => j
+              end
+  | _ => j
+  end.
+Definition norm_vp (j : json) : json :=
+  match j with
+  | JObj m => JObj (map (fun kv => if String.eqb (fst kv) "verifiableCredential"
+                                   then (fst kv, match snd kv with JArr l => JArr (map norm_cred_str l) | x => x end)
+                                   else kv) m)
+  | _ => j
+  end.
+
 Inductive case :=
 (* ParseCredential (validation as chosen by the harness) -> MarshalJSON; None = the parser refused *)
 | CVC (inp : json) (out : option json)
 (* ParsePresentation -> MarshalJSON *)
 | CVP (inp : json) (out : option json)
+(* the same for a presentation enclosing JWT / SD-JWT credentials; env: the compact JWS among its strings and whether
+   their payload has _sd_alg.  The order of the disclosures in a re-serialised SD-JWT is not determined (Go map): compared sorted *)
+| CVPE (env : list (string * bool)) (inp : json) (out : option json)
 (* JWTClaims(minimize) of the parsed credential; the credential re-parsed from the unsecured JWT of those claims
    (decodeCredJWT: refineFromJWTClaims, then the ordinary parser) and serialised again;
    secs/fmt: the time conversions of the dates that occur (done by Go's time package) *)
@@ -33,7 +64,9 @@ Inductive case :=
 | CSVC (typed : obj) (inp : obj) (out : obj)
 (* KeyFingerprint(code,key): bytes under the base58 layer; PubKeyFromFingerprint result; PubKeyFromDIDKey result *)
 | CFP (code : N) (key : list N) (mc : list N) (dec : option (list N * N)) (dk : option (list N))
-(* did.ParseDocument -> JSONBytes (services are checked by CSVC) *)
+(* one service of a DID document (id, @base of the document): populateServices -> populateRawServices *)
+| CSVC2 (did base : string) (inp : obj) (out : obj)
+(* did.ParseDocument -> JSONBytes (services are checked by CSVC2) *)
 | CDID (inp : json) (out : json)
 (* CreateDIDKeyByJwk of the NIST-curve public key (x, y): the bytes under the base58 layer of the did:key *)
 | CEC (code : N) (size : nat) (x y : Z) (mc : list N).
@@ -41,7 +74,8 @@ Inductive case :=
 Definition check_case (c : case) : bool :=
   match c with
   | CVC inp out => ojeq (roundtrip_vc Fixed inp) out
-  | CVP inp out => ojeq (roundtrip_vp Fixed inp) out
+  | CVP inp out => ojeq (roundtrip_vp Fixed [] inp) out
+  | CVPE env inp out => ojeq (option_map norm_vp (roundtrip_vp Fixed env inp)) (option_map norm_vp out)
   | CJWT inp minimize secs fmt iss sub jti nbf iat exp vcclaim rebuilt =>
       match parse_vc Fixed inp with
       | Some v =>
@@ -55,6 +89,7 @@ Definition check_case (c : case) : bool :=
       | None => false
       end
   | CSVC typed inp out => jeq (JObj (service_roundtrip (f64o typed) inp)) (f64j (JObj out))
+  | CSVC2 did base inp out => jeq (JObj (roundtrip_service did base inp)) (f64j (JObj out))
   | CDID inp out =>
       match out with
       | JObj o => ojeq (roundtrip_did Fixed inp)
